@@ -3,5 +3,5 @@ CONSTANTS
   N = 4
   Defects = {"EarlyFail"}
 SPECIFICATION Spec
-INVARIANTS OnlyTruth Prompt NeverFail
+INVARIANTS OnlyTruth Prompt NeverFail OrderIndependent
 CHECK_DEADLOCK FALSE
